@@ -33,6 +33,8 @@
     gini_translate_le, lorenz_income_range, ecdf_sub, ecdf_const_between, ecdf_jump, psi_power_series, psi_unique,
     arma_impulse_iff_power_series, psi_ma, simulation_of_impulse, spectral_density_even, spectral_density_nonneg,
     spectral_density_pos, shorrocks_range, rankSize_top.
+  Final round (model growth): hamiltonGuard_none, hamiltonGuard_some, hamilton_regress_shape, hamilton_zero_rows,
+    periodogramWindowed_spec, periodogram_windowed_count.
   Not proved (numerical tests in harness/c19.py): autocovariance by inverse FFT, |FFT|²/n, freqz, dimpulse/dlsim
   numerics, sqrt in std/skew, the cosine windows.
 -/
@@ -1470,6 +1472,104 @@ theorem bartlett_symm (m i : ℕ) (hm : 2 ≤ m) (hi : i < m) :
 example : (bartlett 5 : List ℚ) = [0, 1/2, 1, 1/2, 0] := by decide +kernel
 
 end bartlettSec
+
+/-! ## which `hamilton_filter` calls succeed; the windowed periodogram -/
+
+section glue
+variable {K : Type} [Field K]
+open QE.MatAlg
+
+/-- **without `p`** the call succeeds exactly for `h ≤ T` and raises `ValueError` otherwise -/
+theorem hamiltonGuard_none (T h : ℕ) :
+    (hamiltonGuard T h none = .ok ↔ h ≤ T) ∧ (hamiltonGuard T h none = .valueError ↔ T < h) := by
+  unfold hamiltonGuard
+  by_cases hh : h ≤ T
+  · simp only [if_pos hh]
+    refine ⟨⟨?_, ?_⟩, ⟨?_, ?_⟩⟩ <;> intro hx <;> first | trivial | omega | rfl | (exact hx.elim) | (cases hx) | (exact hh)
+  · simp only [if_neg hh]
+    refine ⟨⟨?_, ?_⟩, ⟨?_, ?_⟩⟩ <;> intro hx <;> first | trivial | omega | rfl | (exact hx.elim) | (cases hx)
+
+/-- **with `p`**: the regression is reached exactly for `1 ≤ p + h ≤ T` (at least one row), `LinAlgError` exactly
+    for `p + h = T + 1 ≥ 1` (zero rows), `ValueError` exactly for `p + h = 0` or `p + h > T + 1`; never `ok` -/
+theorem hamiltonGuard_some (T h p : ℕ) :
+    (hamiltonGuard T h (some p) = .regress ↔ 1 ≤ p + h ∧ p + h ≤ T) ∧
+    (hamiltonGuard T h (some p) = .linAlgError ↔ 1 ≤ p + h ∧ p + h = T + 1) ∧
+    (hamiltonGuard T h (some p) = .valueError ↔ p + h = 0 ∨ T + 1 < p + h) ∧
+    hamiltonGuard T h (some p) ≠ .ok := by
+  unfold hamiltonGuard
+  by_cases h0 : p + h = 0
+  · simp only [if_pos h0]
+    refine ⟨⟨?_, ?_⟩, ⟨?_, ?_⟩, ⟨?_, ?_⟩, ?_⟩ <;> intro hx <;> first | trivial | omega | rfl | (exact hx.elim) | (cases hx) | (exact Or.inl h0)
+  · by_cases h1 : T + 1 < p + h
+    · simp only [if_neg h0, if_pos h1]
+      refine ⟨⟨?_, ?_⟩, ⟨?_, ?_⟩, ⟨?_, ?_⟩, ?_⟩ <;> intro hx <;> first | trivial | omega | rfl | (exact hx.elim) | (cases hx) | (exact Or.inr h1)
+    · by_cases h2 : T + 1 = p + h
+      · simp only [if_neg h0, if_neg h1, if_pos h2]
+        refine ⟨⟨?_, ?_⟩, ⟨?_, ?_⟩, ⟨?_, ?_⟩, ?_⟩ <;> intro hx <;> first | trivial | omega | rfl | (exact hx.elim) | (cases hx)
+      · simp only [if_neg h0, if_neg h1, if_neg h2]
+        refine ⟨⟨?_, ?_⟩, ⟨?_, ?_⟩, ⟨?_, ?_⟩, ?_⟩ <;> intro hx <;> first | trivial | omega | rfl | (exact hx.elim) | (cases hx)
+
+/-- when the regression is reached, the lag matrix has `T − p − h + 1 ≥ 1` rows and, for **any** coefficient
+    vector, both outputs have length `T` with exactly `p + h − 1 < T` leading `nan`s -/
+theorem hamilton_regress_shape (y : List K) (h p : ℕ) (b : M K)
+    (hg : hamiltonGuard y.length h (some p) = .regress) :
+    (hamX y h p).nr = y.length + 1 - p - h ∧ 1 ≤ (hamX y h p).nr ∧ p + h - 1 < y.length ∧
+    (hamiltonP y h p b).1.length = y.length ∧ (hamiltonP y h p b).2.length = y.length := by
+  have hc := ((hamiltonGuard_some y.length h p).1).mp hg
+  have hl := hamiltonP_length y h p b hc.1 (by omega)
+  refine ⟨rfl, ?_, by omega, hl.1, hl.2⟩
+  rw [hamX_nr]; omega
+
+/-- in the `LinAlgError` branch the lag matrix has no rows, so the matrix `XᵀX` handed to `np.linalg.solve` is
+    the zero matrix (hence singular) -/
+theorem hamilton_zero_rows (y : List K) (h p : ℕ) (hg : hamiltonGuard y.length h (some p) = .linAlgError) :
+    (hamX y h p).nr = 0 ∧ ∀ i j, i < p + 1 → j < p + 1 → (mmul (mT (hamX y h p)) (hamX y h p)).get i j = 0 := by
+  have hc := ((hamiltonGuard_some y.length h p).2.1).mp hg
+  have hnr : (hamX y h p).nr = 0 := by rw [hamX_nr]; omega
+  refine ⟨hnr, ?_⟩
+  intro i j hi hj
+  rw [mmul_get _ _ _ _ (by simp [hamX_nc]; omega) (by rw [hamX_nc]; exact hj)]
+  simp [hnr]
+
+example : hamiltonGuard 6 2 (some 3) = .regress ∧ hamiltonGuard 6 4 (some 3) = .linAlgError ∧
+    hamiltonGuard 6 5 (some 3) = .valueError ∧ hamiltonGuard 6 0 (some 0) = .valueError ∧
+    hamiltonGuard 6 6 none = .ok ∧ hamiltonGuard 6 7 none = .valueError := by decide
+
+/-- **`periodogram(x, window, window_len)`** on the `m` raw ordinates: it returns `m` smoothed ordinates exactly
+    when `3 ≤ window_len ≤ m`, raises the "length" error exactly when `m < window_len`, and the "at least 3"
+    error exactly when `window_len ≤ m` and `window_len < 3` (window of the right length) -/
+theorem periodogramWindowed_spec (win : ℕ → List K) (hwin : ∀ m, (win m).length = m) (I : List K) (wl : ℕ) :
+    ((∃ l, periodogramWindowed win I wl = .ok l ∧ l.length = I.length) ↔ (3 ≤ wl ∧ wl ≤ I.length)) ∧
+    (periodogramWindowed win I wl = .error .tooShort ↔ I.length < wl) ∧
+    (periodogramWindowed win I wl = .error .tooSmall ↔ wl ≤ I.length ∧ wl < 3) := by
+  unfold periodogramWindowed
+  have he := smooth_error_iff win I wl
+  refine ⟨?_, he.1, he.2⟩
+  constructor
+  · rintro ⟨l, hl, _⟩
+    by_contra hc
+    by_cases h1 : I.length < wl
+    · rw [he.1.mpr h1] at hl; cases hl
+    · have h2 : wl ≤ I.length ∧ wl < 3 := by omega
+      rw [he.2.mpr h2] at hl; cases hl
+  · rintro ⟨h3, h1⟩
+    exact smooth_length win hwin I wl h1 h3
+
+/-- with `|I| = ⌊n/2⌋ + 1` (what `periodogram` keeps): the windowed periodogram of a series of length `n ≥ 1`
+    succeeds exactly for `3 ≤ window_len ≤ ⌊n/2⌋ + 1` and then has `⌊n/2⌋ + 1` ordinates -/
+theorem periodogram_windowed_count (win : ℕ → List K) (hwin : ∀ m, (win m).length = m) (I : List K) (n wl : ℕ)
+    (hn : 0 < n) (hI : I.length = (pgramIdx n).length) :
+    (∃ l, periodogramWindowed win I wl = .ok l ∧ l.length = n / 2 + 1) ↔ (3 ≤ wl ∧ wl ≤ n / 2 + 1) := by
+  have hc := periodogram_count n hn
+  have := (periodogramWindowed_spec win hwin I wl).1
+  rw [hI, hc] at this
+  exact this
+
+example : (match periodogramWindowed flatWin [(9 : ℚ), 2, 1, 4, 3] 4 with
+    | .ok l => l == [23/5, 5, 19/5, 13/5, 3]
+    | .error _ => false) = true := by decide +kernel
+
+end glue
 
 /-! ## non-vacuity of the hypotheses used above (concrete instances over ℚ) -/
 
